@@ -469,6 +469,37 @@ pub fn s_pair_ctx(thorough: bool) -> Space {
     }
 }
 
+/// S_forced_dense: dense lengths under forced versions (the symbol is only partly filled: every count of spare
+/// bits modulo 8, 16, 256 occurs; long pad runs; every terminator situation far from capacity)
+pub fn s_forced_dense(thorough: bool) -> Space {
+    let mut cases = vec![];
+    let versions: &[usize] = if thorough { &[1, 2, 5, 9, 10, 15, 20, 26, 27, 34, 40] } else { &[1, 4, 9, 10, 15, 26, 27, 40] };
+    for &v in versions {
+        for e in 0..4usize {
+            for m in 0..3usize {
+                let cap = r::cap(v, e, m);
+                let dense = if thorough { 700 } else { 330 };
+                let mut lens: Vec<usize> = (0..=cap.min(dense)).collect();
+                lens.extend((dense..=cap).step_by(if thorough { 5 } else { 11 }));
+                lens.sort();
+                lens.dedup();
+                for len in lens {
+                    cases.push(Case {
+                        input: Input::Fam(Family::Ctr, m as u8, len as u32),
+                        opts: Opts { mode: Some(m as u8), ecl: Some(e as u8), version: Some(v as u8), mask: None, order: 0 },
+                    });
+                }
+            }
+        }
+    }
+    Space {
+        name: "S_forced_dense".into(),
+        describe: format!("forced versions {:?} x 4 levels x 3 modes x every length up to {} and every {}th beyond, up to the capacity", versions, if thorough { 700 } else { 330 }, if thorough { 5 } else { 11 }),
+        cases,
+        exhaustive: true,
+    }
+}
+
 /// S_order: every order of the setter calls. For option tuples with all four options forced, with one left
 /// automatic, and with mode + level only: all 24 permutations of (mode, ecl, version, mask); the result must
 /// not depend on the order (judged by the ordinary oracle, which knows nothing about order).
